@@ -14,6 +14,25 @@ CLAIMS = {
    note='Trusted: Coq kernel/vm_compute; py/py2v translator; CPython ast as reference; the view model is hand-written (tied by correspondence); '
         'refusal allow-list py/props/C03_refusals_allow.json. No axioms.',
    design='DESIGN.md section 4 C03'),
+ 'C11': dict(
+   technique='Coq proof: text-splice kernel, translated _params_offset and per-node _offset rule, walk=map under Ordered, two-phase offset-mode theorem; vm_compute correspondence; token-gap oracle',
+   text='Theorems (closed under the global context): every branch of _put_src is one algebraic splice with line/prefix/suffix frame lemmas; the TRANSLATED _params_offset '
+        'returns the byte position map of that splice; the TRANSLATED per-node rule of _offset equals the documented position map; under the syntax-order assumption '
+        '(Ordered) the early-exit walk changes exactly the nodes the rule changes; the two-phase offset of put_src(action=offset) is mode_map (before: fixed, after: rigid, '
+        'containers: grown, children: gap belongs to the container). Tie: translators + correspondence of _put_src/_get_src/_params_offset/_offset/put_src(offset) against the '
+        'models on random texts and real trees; oracle: every token gap x trivia-preserving replacement vs ast.parse of the new source, plus boundary gaps vs the geometric rule.',
+   note='Trusted: Coq kernel/vm_compute; py/py2v translators (pyfun, gen_fixups, gen_offset); CPython ast/tokenize as reference (OH1); Ordered is a hypothesis checked on every '
+        'corpus tree; hand models Text.v (put_src) and Offset.v (walk) tied by correspondence. No axioms.',
+   design='DESIGN.md section 3.1, 3.2, 4 C11'),
+ 'C01': dict(
+   technique='Coq proof of the frame part (text splice + position map + expression replacement) ; trace correspondence of every low-level call; CPython re-parse oracle over random edit sequences',
+   text='Proved (closed): every edit primitive is a local splice; translated offset parameters locate the kept text; walk = map of the translated rule; for single-expression '
+        'replacement all surviving nodes end at mode_map and the new sub-tree lands rigidly (C01_frame_expr_replace). Partial: the element part for separator lists / statement '
+        'blocks and handler glue are not modelled - they are decided by the oracle: after every successful op of random edit sequences (all public entry points, three code forms, '
+        'random options with norm=True) the source is re-parsed by CPython and compared in types, fields, ctx and all positions. Trace correspondence replays sampled _offset/_put_src '
+        'calls of those edits on the Coq models.',
+   note='Trusted: Coq kernel/vm_compute; translators; CPython ast (OH1); hand models tied by (trace) correspondence; known_findings.json lists one open finding class (arglike positional after keyword).',
+   design='DESIGN.md section 4 C01'),
 }
 
 checks = []
